@@ -19,6 +19,7 @@ from __future__ import annotations
 
 import json
 import re
+import uuid
 from concurrent.futures import ThreadPoolExecutor
 from dataclasses import dataclass
 from pathlib import Path
@@ -57,7 +58,7 @@ def _chunks(xs, n):
 
 def validate(spec: str, cfg: str, traces: list, *, scratch: Path, parallel: int = 8,
              timeout: int = 900, env: Optional[dict] = None, min_chunk: int = 200,
-             invariant_violation_is_reject: bool = True) -> BatchResult:
+             diagnose: int = 12) -> BatchResult:
     """Validate traces against specs/<spec>.tla. Returns one TraceVerdict per trace (input order)."""
     if not traces:
         return BatchResult([], 0, 0, 0.0)
@@ -66,7 +67,7 @@ def validate(spec: str, cfg: str, traces: list, *, scratch: Path, parallel: int 
 
     def run_chunk(ci_chunk):
         ci, chunk = ci_chunk
-        f = scratch / f"traces-{spec}-{ci}-{id(chunk)}.json"
+        f = scratch / f"traces-{spec}-{ci}-{uuid.uuid4().hex[:10]}.json"
         f.write_text(json.dumps([t for _, t in chunk]))
         e = dict(env or {})
         e.update(TRACE_FILE=str(f), MBV_PROGRESS="0")
@@ -83,8 +84,14 @@ def validate(spec: str, cfg: str, traces: list, *, scratch: Path, parallel: int 
         # -continue keeps TLC going after an invariant violation; a trace whose state violates an
         # invariant is cut there (TLC does not expand violating states), so it is never accepted
         if rej:
-            for gi, t in rej:
-                f1 = scratch / f"trace1-{spec}-{gi}.json"
+            for n_d, (gi, t) in enumerate(rej):
+                if len(t["ev"]) <= 1 or n_d >= diagnose:
+                    # single-event traces need no prefix search; beyond `diagnose` rejected traces per
+                    # chunk the longest matched prefix is not computed (reached = -1: unknown)
+                    out[gi] = TraceVerdict(str(t.get("id", gi)), False, 0 if len(t["ev"]) <= 1 else -1,
+                                           len(t["ev"]))
+                    continue
+                f1 = scratch / f"trace1-{spec}-{gi}-{uuid.uuid4().hex[:10]}.json"
                 f1.write_text(json.dumps([t]))
                 e1 = dict(env or {})
                 e1.update(TRACE_FILE=str(f1), MBV_PROGRESS="1")
